@@ -1359,6 +1359,150 @@ theorem context_element {δ : Type} (x : δ) (c : Entries) (name : String) :
 example : contextRepr [("2", .dict [("3", .leaf (.int 4))]), ("1", .leaf (.int 1))] =
     .ok "{\n    \"1\": 1,\n    \"2\": {\n        \"3\": 4\n    }\n}" := by decide
 
+/-! ## 13. `to_string` of dictionaries with keys that are not strings (`JVal`) -/
+
+/-- a key as `Leaf.str` -/
+def strItem (e : String × List Tok) : Leaf × List Tok := (.str e.1, e.2)
+
+theorem insertJ_str (k : String) (t : List Tok) : ∀ l : List (String × List Tok),
+    insertJ (.str k) t (l.map strItem) = (insertItem k t l).map strItem
+  | [] => rfl
+  | (k', t') :: r => by
+    simp only [List.map_cons, strItem, insertJ, keyLe, insertItem]
+    by_cases h : k ≤ k'
+    · simp [h, strItem]
+    · simp only [h, decide_false, Bool.false_eq_true, if_false, List.map_cons, strItem]
+      rw [← insertJ_str k t r]
+
+theorem sortJ_str : ∀ l : List (String × List Tok), sortJ (l.map strItem) = (sortItems l).map strItem
+  | [] => rfl
+  | (k, t) :: r => by
+    simp only [List.map_cons, strItem, sortJ, sortItems]
+    rw [sortJ_str r, insertJ_str]
+
+theorem textItems_str : ∀ l : List (String × List Tok), textItems (l.map strItem) = some l
+  | [] => rfl
+  | (k, t) :: r => by
+    simp only [List.map_cons, strItem, textItems, keyText, textItems_str r]
+
+theorem keys_entriesToJ : ∀ es : Entries, (entriesToJ es).map (·.1) = es.map (fun e => Leaf.str e.1)
+  | [] => rfl
+  | (k, v) :: r => by simp [entriesToJ, keys_entriesToJ r]
+
+theorem keysSortable_str (es : Entries) : keysSortable ((entriesToJ es).map (·.1)) = some true := by
+  rw [keys_entriesToJ]
+  have h1 : (es.map (fun e => Leaf.str e.1)).any keyIsFloat = false := by
+    simp [List.any_eq_false, keyIsFloat]
+  have h2 : (es.map (fun e => Leaf.str e.1)).all keyIsStr = true := by
+    simp [List.all_eq_true, keyIsStr]
+  simp [keysSortable, h1, h2]
+
+theorem jElems_cons2 (a b : JVal) (r : List JVal) :
+    (∀ t l, jTokens a = .ok t → jElems (b :: r) = .ok l → jElems (a :: b :: r) = .ok (t ++ .comma :: l)) ∧
+    (∀ e, jTokens a = .error e → jElems (a :: b :: r) = .error e) ∧
+    (∀ t e, jTokens a = .ok t → jElems (b :: r) = .error e → jElems (a :: b :: r) = .error e) := by
+  refine ⟨?_, ?_, ?_⟩
+  · intro t l h1 h2; rw [jElems]; simp only [h1, h2]
+  · intro e h1; rw [jElems]; simp only [h1]
+  · intro t e h1 h2; rw [jElems]; simp only [h1, h2]
+
+theorem jItems_cons (k : Leaf) (v : JVal) (r : List (Leaf × JVal)) :
+    (∀ t l, jTokens v = .ok t → jItems r = .ok l → jItems ((k, v) :: r) = .ok ((k, t) :: l)) ∧
+    (∀ e, jTokens v = .error e → jItems ((k, v) :: r) = .error e) ∧
+    (∀ t e, jTokens v = .ok t → jItems r = .error e → jItems ((k, v) :: r) = .error e) := by
+  refine ⟨?_, ?_, ?_⟩
+  · intro t l h1 h2; rw [jItems]; simp only [h1, h2]
+  · intro e h1; rw [jItems]; simp only [h1]
+  · intro t e h1 h2; rw [jItems]; simp only [h1, h2]
+
+mutual
+/-- **to_string_raw_keys (string keys)** — on a string-keyed value the general encoder `jTokens` is
+`to_string` as the theorems of section 7 know it: the canonical tokens, or `LenaValueError` for an
+unserialisable item -/
+theorem jTokens_toJ : ∀ v : Val, jTokens v.toJ =
+    cond (serialisable v) (.ok (toTokens v)) (.error .lenaValueError)
+  | .leaf a => by cases a <;> simp [Val.toJ, jTokens, serialisable, toTokens]
+  | .dict es => by
+    have h2 := jItems_toJ es
+    simp only [Val.toJ, jTokens, keysSortable_str, serialisable, toTokens]
+    rw [h2]
+    cases h : serialisableE es with
+    | false => simp
+    | true =>
+      simp only [cond_true]
+      have : (itemTokens es).map (fun e => ((Leaf.str e.1, e.2) : Leaf × List Tok)) = (itemTokens es).map strItem := rfl
+      rw [this, sortJ_str, textItems_str]
+  | .list xs => by
+    have h2 := jElems_toJ xs
+    simp only [Val.toJ, jTokens, serialisable, toTokens]
+    rw [h2]
+    cases h : serialisableL xs <;> simp
+theorem jItems_toJ : ∀ es : Entries, jItems (entriesToJ es) =
+    cond (serialisableE es) (.ok ((itemTokens es).map (fun e => (Leaf.str e.1, e.2)))) (.error .lenaValueError)
+  | [] => by simp [entriesToJ, jItems, serialisableE, itemTokens]
+  | (k, v) :: r => by
+    have h1 := jTokens_toJ v
+    have h2 := jItems_toJ r
+    obtain ⟨c1, c2, c3⟩ := jItems_cons (.str k) v.toJ (entriesToJ r)
+    simp only [entriesToJ, serialisableE, itemTokens]
+    cases hv : serialisable v with
+    | false =>
+      rw [hv] at h1
+      rw [c2 _ h1]; simp
+    | true =>
+      rw [hv] at h1
+      cases hr : serialisableE r with
+      | false => rw [hr] at h2; rw [c3 _ _ h1 h2]; simp
+      | true => rw [hr] at h2; rw [c1 _ _ h1 h2]; simp
+theorem jElems_toJ : ∀ xs : List Val, jElems (listToJ xs) =
+    cond (serialisableL xs) (.ok (elemTokens xs)) (.error .lenaValueError)
+  | [] => by simp [listToJ, jElems, serialisableL, elemTokens]
+  | [v] => by
+    have h1 := jTokens_toJ v
+    simp only [listToJ, jElems, serialisableL, elemTokens]
+    rw [h1]
+    cases serialisable v <;> simp
+  | v :: w :: r => by
+    have h1 := jTokens_toJ v
+    have h2 := jElems_toJ (w :: r)
+    simp only [listToJ] at h2
+    obtain ⟨c1, c2, c3⟩ := jElems_cons2 v.toJ w.toJ (listToJ r)
+    have he : elemTokens (v :: w :: r) = toTokens v ++ Tok.comma :: elemTokens (w :: r) := by
+      rw [elemTokens]
+    have hs : serialisableL (v :: w :: r) = (serialisable v && serialisableL (w :: r)) := by
+      rw [serialisableL]
+    simp only [listToJ]
+    rw [he, hs]
+    cases hv : serialisable v with
+    | false =>
+      rw [hv] at h1
+      rw [c2 _ h1]; simp
+    | true =>
+      rw [hv] at h1
+      cases hr : serialisableL (w :: r) with
+      | false => rw [hr] at h2; rw [c3 _ _ h1 h2]; simp
+      | true => rw [hr] at h2; rw [c1 _ _ h1 h2]; simp
+end
+
+/-- **to_string_raw_keys** — the documented behaviour for other keys: keys of kinds that cannot be
+compared (a string and a number, `None` and anything) and keys that are not `str/int/bool/float/None` are
+a `LenaValueError`; integer keys are sorted as numbers and written in decimal — so `{1: x}` and
+`{"1": x}` give the same string (the judgement recorded in DESIGN.md: outside the string-keyed domain) -/
+theorem to_string_raw_keys (x y : JVal) (s : String) (i : Int) (o : Option String) :
+    jTokens (.dict [(.str s, x), (.int i, y)]) = .error .lenaValueError ∧
+    jTokens (.dict [(.none, x), (.int i, y)]) = .error .lenaValueError ∧
+    jTokens (.dict [(.obj o, .leaf (.int 0))]) = .error .lenaValueError ∧
+    jTokens (.dict [(.int i, .leaf (.int 0))]) = jTokens (.dict [(.str (toString i), .leaf (.int 0))]) := by
+  refine ⟨?_, ?_, ?_, ?_⟩
+  · simp [jTokens, keysSortable, keyIsFloat, keyIsStr, keyIsNum]
+  · simp [jTokens, keysSortable, keyIsFloat, keyIsStr, keyIsNum]
+  · simp [jTokens, jItems, keysSortable, keyIsFloat, keyIsStr, keyIsNum, sortJ, insertJ, textItems, keyText]
+  · simp [jTokens, jItems, keysSortable, keyIsFloat, keyIsStr, keyIsNum, sortJ, insertJ, textItems, keyText]
+
+example : jTokens (.dict [(.int 10, .leaf .none), (.int 9, .leaf .none), (.bool true, .leaf .none)]) =
+    .ok [.lbrace, .key "true", .colon, .scalar .none, .comma, .key "9", .colon, .scalar .none, .comma,
+         .key "10", .colon, .scalar .none, .rbrace] := by decide
+
 /-! ## Non-vacuity: concrete instances of the hypotheses used above -/
 
 example : EntriesWF [("a", .dict [("b", .leaf (.int 7)), ("c", .leaf (.int 1))]), ("b", .leaf .none)] := by
